@@ -310,10 +310,14 @@ def load_known():
 
 
 def write_evidence(pid, tier, seed, level, coverage, wall, violations, assumptions):
-    os.makedirs(EVID, exist_ok=True)
+    evid = EVID
+    if os.environ.get("VERIF_REPO"):
+        # a development run against another checkout (seeded changes): never into the committed evidence directory
+        evid = os.path.join(VERIF, "run", "evidence-alt")
+    os.makedirs(evid, exist_ok=True)
     ev = {"property_id": pid, "tier": tier, "seed": int(seed), "level": level, "coverage": coverage,
           "assumptions": assumptions, "wall_s": round(wall, 2), "violations": int(violations)}
-    with open(os.path.join(EVID, pid + ".json"), "w") as f:
+    with open(os.path.join(evid, pid + ".json"), "w") as f:
         json.dump(ev, f, indent=1, sort_keys=True)
         f.write("\n")
 
